@@ -9,7 +9,9 @@ import (
 func formatForConsole(argumentList []Value) string {
 	output := []string{}
 	for _, argument := range argumentList {
-		output = append(output, fmt.Sprintf("%v", argument))
+		// Not through fmt: it recovers a panic raised by a Stringer, which would swallow an interrupt
+		// (or a host panic) that arrives while a script-defined toString runs and let the script go on.
+		output = append(output, argument.string())
 	}
 	return strings.Join(output, " ")
 }
